@@ -235,11 +235,13 @@ def _statistics(ctx, cfg):
     ctx.rewritten = rew
 
     for form in ("default-start", "initial_state overwrite=False", "initial_state overwrite=True"):
-        def run(form=form):
+        def run(form=form, defaults=False):
             ns = vc.fresh_int("num_samples", 1)
             nch = vc.fresh_int("num_chains", 0)
             burn, steps = vc.fresh_int("burn_in", 0), vc.fresh_int("steps", 0)
             vc.witness_terms = {"num_samples": ns.e, "num_chains": nch.e, "burn_in": burn.e, "steps": steps.e}
+            if defaults:
+                burn, steps = 1000, 1          # the documented defaults, whatever else is passed
             w = World(vc, burn, steps, canary)
             box["w"] = w
             acc0 = Acc(0.0, 0.0, 0, 0)
@@ -267,7 +269,7 @@ def _statistics(ctx, cfg):
             obs = Obs()
             box["user"], box["overwrite"] = user, kw.get("overwrite")
             f.__globals__["_update_statistics"] = _mk_update_stub(vc, box["accs"], lambda avg_b: "obs", lambda: w.nc)
-            res = f(obs, w, ns, num_chains=nch, burn_in=burn, steps=steps, **kw)
+            res = f(obs, w, ns, num_chains=nch, **kw) if defaults else f(obs, w, ns, num_chains=nch, burn_in=burn, steps=steps, **kw)
             acc = box["accs"]["obs"]
             T = (ns + nc - 1) // nc
             vc.check("post/num_samples == ceil(ns / nc) * nc", res["num_samples"] == T * nc)
@@ -283,6 +285,7 @@ def _statistics(ctx, cfg):
                   spec.template is not None and {"mean", "var", "len", "chain"} <= {r for t in spec.template.values() for r, _v, _p in A._tmpl_walk(t, None)},
                   str(spec.template))
         vc.explore(run, "statistics " + form)
+        vc.explore(lambda run=run: run(defaults=True), "statistics with burn_in and steps left at their defaults (1000, 1), " + form)
     vc.flush()
     ctx.holds("exploration/paths > 0", vc.paths > 0)
     # ObservableBase.sample: pass-through contract
@@ -363,10 +366,12 @@ def _system(ctx, cfg):
     f, rew = A.load(System.statistics, {0: spec}, vc, name="System.statistics")
     ctx.rewritten = rew
 
-    def run(form="default-start"):
+    def run(form="default-start", defaults=False):
         ns = vc.fresh_int("num_samples", 1)
         nch = vc.fresh_int("num_chains", 0)
         burn, steps = vc.fresh_int("burn_in", 0), vc.fresh_int("steps", 0)
+        if defaults:
+            burn, steps = 1000, 1          # the documented defaults, whatever else is passed
         w = World(vc, burn, steps)
         box["w"] = w
         if form == "default-start":
@@ -401,7 +406,7 @@ def _system(ctx, cfg):
                 return d
         system = System(Obs("A"), Obs("B"))
         f.__globals__["_update_statistics"] = _mk_update_stub(vc, accs, lambda avg_b: owner.get(id(avg_b), "?"), lambda: w.nc)
-        res = f(system, w, ns, num_chains=nch, burn_in=burn, steps=steps, **kw)
+        res = f(system, w, ns, num_chains=nch, **kw) if defaults else f(system, w, ns, num_chains=nch, burn_in=burn, steps=steps, **kw)
         T = (ns + nc - 1) // nc
         for nm in names:
             acc = accs[nm]
@@ -418,6 +423,8 @@ def _system(ctx, cfg):
     vc.explore(run, "System.statistics")
     for form in ("initial_state overwrite=False", "initial_state overwrite=True"):
         vc.explore(lambda form=form: run(form), "System.statistics " + form)
+    for form in ("default-start", "initial_state overwrite=False", "initial_state overwrite=True"):
+        vc.explore(lambda form=form: run(form, defaults=True), "System.statistics with burn_in and steps left at their defaults (1000, 1), " + form)
     vc.flush()
     ctx.holds("exploration/paths > 0", vc.paths > 0)
     # System.statistics_from_samples: per observable, unchanged
